@@ -14,6 +14,7 @@ OPS_FOR = {
     "C10": ["hash_cmp", "assign"],
     "C06": ["del"],
     "C01": ["mark"],
+    "C14": ["show"],
 }
 
 def array_jobs(tier, prop):
@@ -35,7 +36,7 @@ def _array_jobs(tier, prop):
          "mem_rem": ["Array_Mem", "Array_Rem", "Array_Pop_At"], "resize": ["Array_Resize", "Array_Clear"], "del": ["Array_Del"],
          "concat": ["Array_Concat", "Array_Reserve_More"], "assign": ["Array_Assign", "Array_Clear"],
          "iter": ["Array_Iter_Init", "Array_Iter_Next", "Array_Iter_Last", "Array_Iter_Prev", "Array_Iter_Type", "Array_Len"],
-         "hash_cmp": ["Array_Hash", "Array_Cmp"], "mark": ["Array_Mark"], "sort": ["Array_Sort_By", "Array_Sort_Part", "Array_Sort_Partition"]}
+         "hash_cmp": ["Array_Hash", "Array_Cmp"], "mark": ["Array_Mark"], "show": ["Array_Show"], "sort": ["Array_Sort_By", "Array_Sort_Part", "Array_Sort_Partition"]}
     def add(op, n, s, idx=None, m=None, covers=False, extra=()):
         defs = ["N=%d" % n, "S=%d" % s]
         name = "%s.Array.%s.n%d.s%d" % (prop, op, n, s)
@@ -45,7 +46,7 @@ def _array_jobs(tier, prop):
             defs.append("M=%d" % m); name += ".m%d" % m
         J.append(Job(name, "C04", "K3", "Array/k3.c", "h_" + op, F[op], link=L, defines=defs, replace_calls=["exception_throw:cv_throw"],
                      unwind=8, cbmc=["--unwindset", "cv_live_count.0:26", "--no-malloc-may-fail"] + list(extra), covers=covers,
-                     group="Array.%s" % op, also=["C05", "C11", "C12", "C19", "C09", "C10", "C06", "C01"], timeout=300,
+                     group="Array.%s" % op, also=["C05", "C11", "C12", "C19", "C09", "C10", "C06", "C01", "C14"], timeout=300,
                      bound="Array: length <= %d, every capacity the growth/shrink policy yields, every index in [-len-3, len+2]" % nmax,
                      case="len=%d cap=%d%s%s" % (n, s, "" if idx is None else " index=%d" % idx, "" if m is None else " operand_len=%d" % m),
                      replay="seq_array.c",
@@ -74,6 +75,7 @@ def _array_jobs(tier, prop):
         add("del", n, n + 1, covers=True, extra=["--memory-leak-check"])
         add("iter", n, n, covers=True)
         add("mark", n, n, covers=True)
+        add("show", n, n, covers=True)
         if n <= 2:      # length 3 exhausts the solver (recursion + element swaps through symbolic offsets)
             add("sort", n, n, covers=True, extra=["--unwindset", "Array_Sort_Part:%d" % (n + 1)])
         for m in range(0, 3):
@@ -93,7 +95,7 @@ def _list_jobs(tier, prop):
          "resize": ["List_Resize", "List_Clear"], "del": ["List_Del", "List_Clear"], "concat": ["List_Concat", "List_Push"],
          "assign": ["List_Assign", "List_Clear", "List_Push"],
          "iter": ["List_Iter_Init", "List_Iter_Next", "List_Iter_Last", "List_Iter_Prev", "List_Iter_Type", "List_Len"],
-         "hash_cmp": ["List_Hash", "List_Cmp"], "mark": ["List_Mark"]}
+         "hash_cmp": ["List_Hash", "List_Cmp"], "mark": ["List_Mark"], "show": ["List_Show"]}
     def add(op, n, idx=None, m=None, covers=False, extra=()):
         defs = ["N=%d" % n]
         name = "%s.List.%s.n%d" % (prop, op, n)
@@ -103,7 +105,7 @@ def _list_jobs(tier, prop):
             defs.append("M=%d" % m); name += ".m%d" % m
         J.append(Job(name, "C04", "K3", "List/k3.c", "h_" + op, F[op], link=L, defines=defs, replace_calls=["exception_throw:cv_throw"],
                      unwind=8, cbmc=["--unwindset", "cv_live_count.0:26", "--no-malloc-may-fail"] + list(extra), covers=covers,
-                     group="List.%s" % op, also=["C05", "C11", "C12", "C19", "C09", "C10", "C06", "C01"], timeout=300,
+                     group="List.%s" % op, also=["C05", "C11", "C12", "C19", "C09", "C10", "C06", "C01", "C14"], timeout=300,
                      bound="List: length <= %d, every index in [-len-3, len+2]" % nmax,
                      case="len=%d%s%s" % (n, "" if idx is None else " index=%d" % idx, "" if m is None else " operand_len=%d" % m),
                      replay="seq_list.c",
@@ -136,6 +138,7 @@ def _list_jobs(tier, prop):
         add("del", n, covers=True, extra=["--memory-leak-check"])
         add("iter", n, covers=True)
         add("mark", n, covers=True)
+        add("show", n, covers=True)
         for m in range(0, nmax + 1):
             add("hash_cmp", n, m=m, covers=(m == n))
     return J
@@ -149,7 +152,7 @@ def _tuple_jobs(tier, prop):
          "get_set": ["Tuple_Get", "Tuple_Set"], "set_bad": ["Tuple_Set"], "mem_rem": ["Tuple_Mem", "Tuple_Rem", "Tuple_Pop_At"],
          "resize": ["Tuple_Resize"], "del": ["Tuple_Del"], "concat": ["Tuple_Concat"], "assign": ["Tuple_Assign"],
          "iter": ["Tuple_Iter_Init", "Tuple_Iter_Next", "Tuple_Iter_Last", "Tuple_Iter_Prev", "Tuple_Len"],
-         "hash_cmp": ["Tuple_Hash", "Tuple_Cmp"], "mark": ["Tuple_Mark"], "sort": ["Tuple_Sort_By", "Tuple_Sort_Part", "Tuple_Sort_Partition", "Tuple_Swap"]}
+         "hash_cmp": ["Tuple_Hash", "Tuple_Cmp"], "mark": ["Tuple_Mark"], "show": ["Tuple_Show"], "sort": ["Tuple_Sort_By", "Tuple_Sort_Part", "Tuple_Sort_Partition", "Tuple_Swap"]}
     def add(op, n, idx=None, m=None, covers=False, heap=1, dup=0, group=None, extra=(), unwind=8):
         defs = ["N=%d" % n]
         name = "%s.Tuple.%s.n%d" % (prop, group or op, n)
@@ -163,7 +166,7 @@ def _tuple_jobs(tier, prop):
             defs.append("DUP=1")
         J.append(Job(name, "C04", "K3", "Tuple/k3.c", "h_" + op, F[op], link=L, defines=defs, replace_calls=["exception_throw:cv_throw"],
                      unwind=unwind, cbmc=["--unwindset", "cv_live_count.0:26", "--no-malloc-may-fail"] + list(extra), covers=covers,
-                     group="Tuple.%s" % (group or op), also=["C11", "C12", "C19", "C09", "C10", "C01"], timeout=400,
+                     group="Tuple.%s" % (group or op), also=["C11", "C12", "C19", "C09", "C10", "C01", "C14"], timeout=400,
                      bound="Tuple: length <= %d, every index in [-len-2, len+1], heap and stack receivers" % nmax,
                      case="len=%d%s%s%s%s" % (n, "" if idx is None else " index=%d" % idx, "" if m is None else " operand_len=%d" % m, "" if heap else " stack receiver", " repeated item" if dup else ""),
                      replay="seq_tuple.c",
@@ -184,6 +187,7 @@ def _tuple_jobs(tier, prop):
         add("del", n, covers=True, extra=["--memory-leak-check"])
         add("iter", n, covers=True)
         add("mark", n, covers=True)
+        add("show", n, covers=True)
         if n >= 2:
             add("iter", n, dup=1, group="iter_dup")
         for m in range(0, nmax + 1):
